@@ -77,6 +77,13 @@ CHUNKS = [b"\n", b"\n\n", b"`\n", b"!<arch>\n", b"abc", b"\x00\xff", b"line\n", 
 def _gen_data(rng, size_class):
     if size_class == 0:
         return b""
+    if size_class == 5:
+        # a line that spans more than any plausible block size (64 KiB)
+        body = bytes(rng.choice(b"abcdefgh") for _ in range(97)) * rng.choice([800, 1500])
+        if rng.random() < 0.5:
+            cut = rng.randrange(len(body))
+            body = body[:cut] + b"\n" + body[cut:]
+        return body + rng.choice([b"", b"\n", b"tail"])
     if size_class == 4:
         # beyond one I/O buffer, few or no newlines
         body = bytes(rng.choice(b"abcdefgh") for _ in range(64)) * rng.choice([130, 200, 300])
@@ -113,9 +120,13 @@ def generate(seed, run, tier):
         name = rw.choice(names_pool) if rw.random() < 0.3 else names_pool[i]
         if name.strip(".") == "" and rw.random() < 0.5:
             name = "m%d" % i
+        if rs.random() < 0.03:
+            # blanks that are not ASCII blanks at the edges of a name
+            name = rw.choice(["\x1cname", "name\x1f", "\u00a0x", "x\u3000", "\x85y", "n\u2003"])
         style = "bsd" if (rs.random() < 0.25 or len(name) == 16) else "gnu"
         members.append({"name": name, "style": style,
-                        "data": enc_bytes(_gen_data(rw, 4 if rs.random() < 0.03 else
+                        "data": enc_bytes(_gen_data(rw, (5 if rs.random() < 0.2 else 4)
+                                                    if rs.random() < 0.03 else
                                                     rw.choice([0, 1, 2, 2, 3, 3]))),
                         "mtime": rw.choice([0, 1342943816, 999999999999]),
                         "uid": rw.choice([0, 1000, 999999]), "gid": rw.choice([0, 50, 999999]),
